@@ -83,7 +83,9 @@ package traversalrecord
 
 //@ -- C01 / C02: a remote link is accepted only if it is the link the local traversal loaded at this position, and only
 //@ -- if it does not claim more than the local traversal found; anything else is an error (the caller must not swallow)
+//@ ghost vfail int   -- history: replay steps that ended in an error so far
 //@ func Verifier.VerifyNext
+//@   ghost vfail := old(vfail) + ite(result != nil, 1, 0)
 //@   requires stackOK(v) && atLink(v) && recOK()
 //@   modifies v.stack
 //@   ensures stackOK(v) && atLink(v)
